@@ -22,7 +22,7 @@ RULE = ("models x N in 1..4 x every missing-data mask of the n_y x N panel x std
         "x data vector; distinct non-trivial = (model, N, mask, std setting, deviation, rescale, data)")
 MANIFEST_ENTRY = dict(level="exploration", design="DESIGN.md section 4 / C03",
     technique="bounded-exhaustive enumeration of all missing-data masks x configurations on generated state-space models; explicit joint-Gaussian stacking oracle (one linear solve per conditioning set)",
-    text="For 12 (quick) / 17 (thorough) solved stationary models (1-4 states, 1-2 observables, with/without measurement shocks, lagged state in the measurement equation, AR(2), coupled oscillating AR(2) pair with complex roots, forward-looking, log observable), every span length N<=3 (quick; N<=4 thorough) and EVERY missing-data mask of the n_y x N panel, under 3 std settings (incl. time-varying stds from data), deviation on/off, rescale_variance on/off and 2 dense data vectors, the filter's neg_log_likelihood (two entry points), per-period contributions (sum and each one, zero for empty periods), var_scale, predict/update/smooth means and variances of every variable and shock, prediction errors and prediction MSE matrices are compared with exact conditioning of the stacked joint normal law.",
+    text="For 12 (quick) / 17 (thorough) solved stationary models (1-4 states, 1-2 observables, with/without measurement shocks, lagged state in the measurement equation, AR(2), coupled oscillating AR(2) pair with complex roots, forward-looking, log observable), every span length N<=3 (quick; N<=4 thorough) and EVERY missing-data mask of the n_y x N panel, under 3 std settings (incl. time-varying stds from data), deviation on/off, rescale_variance on/off and 2 dense data vectors, the filter's neg_log_likelihood (two entry points), per-period contributions (sum and each one, zero for empty periods), var_scale, predict/update/smooth means and variances of every variable and shock, prediction errors and prediction MSE matrices are compared with exact conditioning of the stacked joint normal law; a two-variant model on two-variant data must reproduce the two single-variant runs.",
     note="Trusted: numpy linear algebra and ref/gauss.py; the solution matrices are taken from get_solution() (decided by C01). Standard deviations are compared as variances; shock stds that the implementation does not report (NaN) are pinned to the set measured on the unchanged tree. Unit-root models are covered under the default diffuse_method='fixed_unknown' only (oracle: GLS-concentrated likelihood in the coordinates of the reported triangular solution); approx_diffuse is not covered.")
 ASSUMPTIONS = ["the first-order solution matrices are correct (C01)", "initial condition = stationary law under the model's assigned stds; for unit roots: fixed unknown initial condition of the unit-root block of the reported triangular solution"]
 
@@ -302,6 +302,85 @@ def check_config(spec, m, N, setting, dev, res, ctx, only_mask=None):
     res.sample({"model": name, "N": N, "setting": label, "deviation": dev, "masks": 2 ** (ny * N)})
 
 
+def scaled(spec, factor):
+    d = spec.to_json()
+    for e in d["eqs"]:
+        e["terms"] = [(j, s_, c * (factor if abs(c) != 1.0 else 1.0)) for (j, s_, c) in e["terms"]]
+    sp = linre.LinSpec.from_json(d)
+    sp.name = spec.name + "_scaled"
+    return sp
+
+
+def check_variants(spec, m, N, setting, dev, res, ctx):
+    """a two-variant model (different coefficients and stds) filtered on two-variant data must give, variant by
+    variant, what the two single-variant models give on their own data"""
+    label, base, tv = setting
+    if tv is not None:
+        return
+    ny = len(spec.meas)
+    spec_b = scaled(spec, 0.9)
+    if spec_b.classify()["kind"] != "determinate":
+        res.exclude("variant_parameters_not_determinate")
+        return
+    base_b = {k: v * 1.5 for k, v in base.items()}
+    m_b = build(spec_b)
+    m_b.assign(**base_b)
+    with contextlib.redirect_stdout(io.StringIO()):
+        m2 = m.copy()
+        m2.alter_num_variants(2)
+        pa, pb = spec.param_values(), spec_b.param_values()
+        m2.assign(**{k: [pa[k], pb[k]] for k in pa})
+        m2.assign(**{k: [base[k], base_b[k]] for k in base})
+        m2.steady()
+        m2.solve()
+    masks = list(all_masks(ny, N))
+    pick = [masks[-1], masks[len(masks) // 2], masks[1] if len(masks) > 1 else masks[0]]
+    pats = data_patterns(ny, N, ctx.seed)
+    keys = ("predict_med", "predict_std", "update_med", "update_std", "smooth_med", "smooth_std", "predict_err")
+    for mask in pick:
+        lev = []
+        for k, (sp_, mod) in enumerate(((spec, m), (spec_b, m_b))):
+            pat = pats[k] * (0.1 if spec.log else 1.0)
+            ss = np.zeros(ny) if dev or sp_.steady() is None else np.array([sum(c * sp_.steady()[j] for (j, s_, c) in e["terms"]) + e.get("const", 0.0) for e in sp_.meas])
+            a = ss[:, None] + pat
+            lev.append(np.exp(a) if spec.log else a)
+        case = {"spec": spec.to_json(), "N": N, "setting": label, "deviation": dev, "rescale": False, "mask": mask.astype(int).tolist(), "pattern": "variants"}
+
+        def bad(check, detail, **extra):
+            sig = {"setting": label, "deviation": dev, "log": spec.log, "ny": ny, "what": "variants"}
+            sig.update(extra)
+            res.violation(check, sig, case, "%s N=%d mask=%s: %s" % (spec.name, N, mask.astype(int).tolist(), detail))
+        try:
+            singles = [Filtered(spec, m, lev[0], mask, N, dev, False, None), Filtered(spec_b, m_b, lev[1], mask, N, dev, False, None)]
+            span = START >> (START + N - 1)
+            db = ir.Databox()
+            for i in range(ny):
+                cols = np.column_stack([np.where(mask[i], lev[k][i], np.nan) for k in range(2)])
+                db[spec.obs(i)] = ir.Series(start=START, values=cols)
+            with contextlib.redirect_stdout(io.StringIO()):
+                out2, info2 = m2.kalman_filter(db, span, return_info=True, deviation=dev)
+            res.ev(3)
+            res.nt((spec.name, N, label, dev, mask.tobytes(), "variants"))
+            res.count("variant_runs")
+            for k in range(2):
+                i2 = info2[k] if isinstance(info2, (list, tuple)) else info2
+                if not np.isclose(i2["neg_log_likelihood"], singles[k].info["neg_log_likelihood"], rtol=1e-9, atol=1e-9):
+                    bad("variant_mismatch", "variant %d: neg_log_likelihood %.12g, single-variant model %.12g" % (k, i2["neg_log_likelihood"], singles[k].info["neg_log_likelihood"]))
+                for key in keys:
+                    for n_ in singles[k].out[key].keys():
+                        a1 = singles[k].out[key][n_].get_data_from_until((START, START + N - 1))[:, 0]
+                        if n_ not in out2[key]:
+                            bad("variant_mismatch", "variant run lacks %s %s" % (key, n_))
+                            continue
+                        a2 = out2[key][n_].get_data_from_until((START, START + N - 1))
+                        col = a2[:, k] if a2.shape[1] > 1 else a2[:, 0]
+                        if not np.allclose(col, a1, rtol=1e-8, atol=1e-9, equal_nan=True):
+                            bad("variant_mismatch", "variant %d %s %s: two-variant run %s, single-variant model %s" % (k, key, n_, np.round(col, 8).tolist(), np.round(a1, 8).tolist()))
+                            break
+        except Exception as e:
+            bad("exception", "variants: %s: %s" % (type(e).__name__, str(e)[:300]), error=type(e).__name__)
+
+
 def shard(item, res, ctx):
     spec = linre.LinSpec.from_json(item["spec"])
     m = build(spec)
@@ -309,6 +388,7 @@ def shard(item, res, ctx):
     setting = std_settings(spec, N, ctx.seed)[item["setting"]]
     m.assign(**setting[1])
     check_config(spec, m, N, setting, item["dev"], res, ctx)
+    check_variants(spec, m, N, setting, item["dev"], res, ctx)
 
 
 def run(ctx, total, info):
@@ -325,7 +405,8 @@ def run(ctx, total, info):
     info["exhaustive"] = True
     info["models"] = len(models(ctx.tier))
     info["floors"] = {"filter_calls": (total.evaluations, 8000), "mask_shapes": (len(total.classes.get("mask_shape", ())), 20),
-                      "unit_root_cases": (total.counters.get("unit_root_cases", 0), 500)}
+                      "unit_root_cases": (total.counters.get("unit_root_cases", 0), 500),
+                      "variant_runs": (total.counters.get("variant_runs", 0), 200)}
     # the moments the implementation reports (finite cells) are pinned: none of these classes may disappear
     c = total.counters
     for key in ("predict_med_v", "predict_med_o", "predict_med_e", "predict_med_w", "update_med_v", "update_med_o", "update_med_e",
